@@ -230,6 +230,12 @@ def bigconst_body(ctx, case):
         rows = [md.init[k] for k in range(3)]
     if sig.init != exp:
         raise Mismatch("signal-init-wrap", v=v, shape=[w, s], expected=exp, actual=sig.init)
+    # the alternative constructor: a copy keeps the wrapped value, and an explicit initial value (0 included) replaces it
+    with warnings.catch_warnings():
+        warnings.simplefilter("ignore")
+        cp, cp0, cpv = Signal.like(sig), Signal.like(sig, init=0), Signal.like(Signal(mkshape(w, s), init=1 if w else 0), init=v)
+    if (cp.init, cp0.init, cpv.init) != (exp, 0, exp):
+        raise Mismatch("signal-like-init", v=v, shape=[w, s], expected=[exp, 0, exp], actual=[cp.init, cp0.init, cpv.init])
     if list(md.init) != [0, exp, 0] or rows != [0, exp, 0]:
         raise Mismatch("memory-init-wrap", v=v, shape=[w, s], route=MEM_ROUTES[route], expected=exp, actual=list(md.init))
     ctx.note(["bigconst", str(v), w, s, route], True, "bigconst:truncating" if not R.fits(v, w, s) else "bigconst:fits",
